@@ -983,6 +983,29 @@ func ruleMemTableGetTable(c *Ctx, r *Reporter) {
 				}
 			})
 			res := EvalPath(fn.Blocks[0], nil, sc, nil)
+			// the answer delegated to a helper (`return foundResult(e)`): the row is continued in the helper, which sees
+			// the same entry
+			if res.Err == "" && res.Ret != nil && len(res.Ret.Results) == 2 {
+				if ex, ok := ReturnValue(res.Ret, 0).(*ssa.Extract); ok {
+					if call, ok := ex.Tuple.(*ssa.Call); ok {
+						if h := call.Call.StaticCallee(); h != nil && len(h.Blocks) > 0 && pkgOf(h) == "pkg/memtable" && h != fn {
+							AllInstrs(h, false, func(_ *ssa.Function, ins ssa.Instruction) {
+								if x, ok := ins.(*ssa.UnOp); ok && x.Op == token.MUL {
+									if fa, ok := x.X.(*ssa.FieldAddr); ok && fieldName(fa) == "valueType" {
+										sc.Vals[x] = row.vt
+									}
+								}
+							})
+							for _, prm := range h.Params {
+								if strings.HasSuffix(prm.Type().String(), "memtable.entry") {
+									sc.Vals[prm] = row.entry
+								}
+							}
+							res = EvalPath(h.Blocks[0], nil, sc, nil)
+						}
+					}
+				}
+			}
 			cons := fmt.Sprintf("memtable.MemTable.Get[%s,%s]", map[bool]string{true: "immutable", false: "mutable"}[immutable], row.name)
 			if res.Err != "" || res.Ret == nil || len(res.RetVals) != 2 || res.RetVals[1].Kind != "bool" {
 				r.Undecided(cons, c.FnPos(fn), "row not decidable: "+res.Err)
